@@ -930,10 +930,17 @@ func infallibleWrite(call *ssa.Call) bool {
 // the flag is false, every error return observes only false stores of the
 // flag and every successful return only true ones.
 func flagGuardedCleanup(fn *ssa.Function, cleanup ssa.Value) bool {
-	isCleanupCall := func(i ssa.Instruction) bool {
+	return flagGuardedBy(fn, func(i ssa.Instruction) bool {
 		c := callCommon(i)
 		return nil != c && resolveCell(c.Value) == cleanup
-	}
+	}, cleanup.(ssa.Instruction))
+}
+
+// flagGuardedBy: a deferred function literal of fn does the cleanup (calls
+// satisfying isCleanupCall) unless a local flag is set, and the flag is set
+// only on the way to a successful return; returns made before `since` (when
+// there is nothing to clean up yet) do not count.
+func flagGuardedBy(fn *ssa.Function, isCleanupCall func(ssa.Instruction) bool, since ssa.Instruction) bool {
 	ok := false
 	eachInstr(fn, func(i ssa.Instruction) {
 		d, isDefer := i.(*ssa.Defer)
@@ -986,8 +993,12 @@ func flagGuardedCleanup(fn *ssa.Function, cleanup ssa.Value) bool {
 			if !isRet || (nil != fn.Recover && j.Block() == fn.Recover) {
 				return
 			}
-			if !canReach(locOf(cleanup.(ssa.Instruction)), j) {
-				return /* before the cleanup exists */
+			from := since
+			if nil == from {
+				from = d /* what returned before the defer is not its business */
+			}
+			if !canReach(locOf(from), j) {
+				return /* before there is anything to clean up */
 			}
 			if !instrDominates(d, j) {
 				good = false
